@@ -116,7 +116,19 @@ def rule_ctor(facts, rep):
 
 def rule_forward(facts, rep):
     for meth in METHODS:
-        b = facts.body("anstream", WR + meth)
+        rep.guarded("forward", WR + meth, lambda meth=meth: forward_one(facts, rep, meth))
+    forward_strip(facts, rep)
+
+
+def forward_one(facts, rep, meth):
+    if True:
+        try:
+            b = facts.body("anstream", WR + meth)
+        except AnchorMissing:
+            rep.bad("forward", WR + meth, "override-missing",
+                    f"AutoStream does not override `{meth}`: std's default implementation loops over `write`, which for the Strip arm "
+                    f"is not equivalent to the strip stream's own `{meth}` (a retried buffer is re-stripped from the entry state)")
+            return
         rep.fn(b["path"])
         m = ac.single_expr(b["hir"])
         sc = hir.peel(m["scrut"])
@@ -141,6 +153,9 @@ def rule_forward(facts, rep):
             rep.check(ok, "forward", b["path"], f"{v}→{meth}", why, loc(b, a))
             rep.count()
         rep.check(sorted(hir.last_seg(hir.pat_path(a["pat"])) for a in m["arms"]) == ["PassThrough", "Strip"], "forward", b["path"], "two-arms", "", loc(b))
+
+
+def forward_strip(facts, rep):
     # StripStream's own methods call the like-named helper with (locked raw, state, arg)
     for meth in ("write", "write_all", "write_fmt"):
         b = facts.body("anstream", SW + meth)
